@@ -210,3 +210,24 @@ gproof! { fn c15_arc_new_uninit_dropped_early() {
     drop(a);
     assert!(vrt::drops() == 0 && vrt::ga(1) && vrt::gd(1) && vrt::glive(0));
 } }
+
+// @h props=C15 tier=thorough bounded=len<=5 fuc=UniqueArc::from_header_and_uninit_slice,UniqueArc::assume_init_slice_with_header,UniqueArc::drop
+gproof! { #[kani::unwind(7)] fn c15_unique_uninit_slice_with_header_prefix_len5() {
+    let len: usize = kani::any();
+    kani::assume(len <= 5);
+    let hd = Tr8::new();
+    let hid = hd.id;
+    let mut u: UniqueArc<HeaderSlice<Tr8, [MaybeUninit<Tr>]>> = UniqueArc::from_header_and_uninit_slice(hd, len);
+    let k: usize = kani::any();
+    kani::assume(k <= len);
+    let mut i = 0;
+    while i < k { u.slice[i].write(Tr::new()); i += 1; }
+    if k == len && kani::any() {
+        let a = unsafe { u.assume_init_slice_with_header() };
+        drop(a);
+        assert!(vrt::drops() == len + 1 && vrt::gd(1));
+    } else {
+        drop(u);
+        assert!(vrt::drops() == 1 && vrt::dropped(hid) && vrt::drops_kind(0) == 0 && vrt::gd(1) && vrt::glive(0));
+    }
+} }
